@@ -2176,8 +2176,10 @@ class Lengths(Expr):
 
     def _simplify_down(self):
         if isinstance(self.frame, Elemwise):
-            child = max(self.frame.dependencies(), key=lambda expr: expr.npartitions)
-            return Lengths(child)
+            # see Len._simplify_down
+            frames = _row_operands(self.frame)
+            if frames and len({_rows_root(expr)._name for expr in frames}) == 1:
+                return Lengths(frames[0])
 
     def _layer(self):
         name = "part-" + self._name
@@ -3896,6 +3898,25 @@ def _check_dependents_are_predicates(
     return all_dependents.issubset(allowed_expressions) and other_names.issubset(
         allowed_expressions
     )
+
+
+def _row_operands(expr):
+    # The operands whose rows make up the rows of a length preserving operation
+    broadcast = getattr(
+        expr, "_broadcast_dep", lambda dep: dep.npartitions == 1 and dep.ndim < expr.ndim
+    )
+    return [dep for dep in expr.dependencies() if not broadcast(dep)]
+
+
+def _rows_root(expr):
+    # Follow length preserving operations down to the expression that determines
+    # the rows
+    while expr._is_length_preserving:
+        frames = _row_operands(expr)
+        if len(frames) != 1:
+            break
+        expr = frames[0]
+    return expr
 
 
 def _depends_on(e, name, cache):
